@@ -475,6 +475,73 @@ class Program:
         self._callers = None
         self._callees = None
         self._children = None
+        self._reslicers = None
+
+    @property
+    def reslicers(self):
+        """Keys of crate-local functions that only return a (sub-)view of their first reference
+        parameter: reference-typed result, no stores through parameters, and every call in the body is
+        itself a pure view function.  Views pass through them (e.g. `state_counter(&mut nonce)`)."""
+        if self._reslicers is None:
+            from .engines import RESLICE
+            res = set()
+            changed = True
+            while changed:
+                changed = False
+                for f in self.fns:
+                    if f.key in res or f.kind == "closure" or f.argc < 1:
+                        continue
+                    rt = f.locals[0]
+                    if rt.get("k") != "ref":
+                        continue
+                    if f.locals[1].get("k") != "ref":
+                        continue
+                    ok = True
+                    for b, i, st in f.assigns():
+                        if "deref" in st["place"]["p"] and st["place"]["l"] != 0:
+                            ok = False
+                            break
+                    if ok:
+                        for c in f.calls():
+                            if f.blocks[c.bb]["cleanup"]:
+                                continue
+                            if c.path in RESLICE or c.rpath in RESLICE:
+                                continue
+                            if (c.rkey or "") in res:
+                                continue
+                            if c.path.startswith("core::panicking") or c.path.startswith("std::fmt") or c.path.startswith("core::fmt"):
+                                continue
+                            ok = False
+                            break
+                    if ok:
+                        res.add(f.key)
+                        changed = True
+            self._reslicers = res
+            NARROW = {"std::ops::IndexMut::index_mut", "std::ops::Index::index",
+                      "core::slice::<impl [T]>::split_at_mut", "core::slice::<impl [T]>::split_at",
+                      "core::slice::<impl [T]>::first_mut", "core::slice::<impl [T]>::last_mut"}
+            nar = set()
+            changed = True
+            while changed:
+                changed = False
+                for k in res:
+                    if k in nar:
+                        continue
+                    f = self.by_key[k]
+                    for c in f.calls():
+                        if f.blocks[c.bb]["cleanup"]:
+                            continue
+                        if c.path in NARROW or c.rpath in NARROW or (c.rkey in nar):
+                            nar.add(k)
+                            changed = True
+                            break
+            self._narrowing_reslicers = nar
+        return self._reslicers
+
+    @property
+    def narrowing_reslicers(self):
+        self.reslicers
+        return self._narrowing_reslicers
 
     # closures belong to their parent function (rules treat a method and its closures as a unit)
     def children(self, fn):
